@@ -377,7 +377,8 @@ pub fn run_c05(tier: Tier) -> i32 {
     let reporter = Reporter::new(P5);
     let mut ev = Evidence::new(P5, tier);
     let ctx = Ctx { reporter: &reporter, evals: AtomicU64::new(0), packets: AtomicU64::new(0), needmore: AtomicU64::new(0) };
-    let maxes: [usize; 2] = [1 << 20, 3];
+    // maximum packet sizes: generous, and tiny ones around the shortest frames
+    let maxes: [usize; 5] = [1 << 20, 3, 2, 1, 0];
     // (a) every byte string up to length 2 (quick) / 3 (thorough)
     let max_len = if tier == Tier::Quick { 2 } else { 3 };
     let mut inputs_a = 0u64;
